@@ -138,6 +138,10 @@ func baseChecks(run *vlab.Run, res *CaseResult, desc interface{}, wantExit0 bool
 		run.Inconclusive(fmt.Sprintf("the virtual wire dropped %d frames: %v", res.TxDropped, desc))
 		return false
 	}
+	if res.Undrained > 0 {
+		run.Inconclusive(fmt.Sprintf("the monitor could not read %d queued frames from the virtual wire within a minute: %v", res.Undrained, desc))
+		return false
+	}
 	if wantExit0 && res.ExitCode != 0 {
 		run.Violation("exit-status", fmt.Sprintf("sx exited with status %d on a valid invocation; stderr: %s", res.ExitCode, tailStr(res.Stderr, 600)), desc)
 		return false
